@@ -29,7 +29,8 @@ for _p in range(1, 21):
 
 # seeds that a later `fix:` commit in /repo made harmless: the seed's own demonstration passes with the patch applied on the
 # repaired library, so there is nothing left to catch (kept for the record, not run)
-NEUTRALISED = {"C17L": "d95d431 (ViperBinder.Get hands out deep copies: the fast path stores a private copy, the demo passes)"}
+NEUTRALISED = {"C17L": "d95d431 (ViperBinder.Get hands out deep copies: the fast path stores a private copy, the demo passes)",
+               "C09N": "a0dd34c (time values no longer reach validator.Struct, so the unchecked assertion of the seed never meets an InvalidValidationError: the demo passes; before the repair the graph check caught it with input through configuration slot 12)"}
 
 
 def first_lines(path, n=12):
